@@ -28,7 +28,7 @@ fn op_mentions(op: &Op, n: u32) -> bool {
         Op::SetWorld { node, .. } => *node == n,
         Op::Query { root, .. } | Op::RepairTfc { root } => *root == n,
         Op::Concurrent { roots, .. } => roots.contains(&n),
-        Op::Restart => false,
+        Op::Restart | Op::Drain => false,
         Op::ReadersWriter { .. } => true,
         Op::Faulted { op, fault } => {
             op_mentions(op, n)
